@@ -23,15 +23,12 @@
   parser rejects NUL, C01); where C reads a base64-decoded buffer as a C string
   (strlen(pw), strlen(user)) the model uses `cstr`.
 
-  Three places describe the property-conforming behaviour rather than the code as
-  pinned (reported as defects; see the C16 check):
-    * base64Dec: a decode stopped by an invalid character fails (base64.c tests
-      `*un != '\0'` where its own comment says `*un == '\0'`);
-    * validateNonce: a nonce timestamp with bit 63 set is stale (the C evaluates
-      `cur_ts - ts` with signed overflow: undefined behaviour, wraps to "fresh");
-    * digestGet: a cache entry keyed by user name is not used for a
-      `userhash=true` request (the C accepts it and then authorizes the *presented*
-      string as the user name).
+  History: three defects were found with this model and are fixed in /repo (base64 decode
+  stopped by an invalid character, D22; nonce timestamp with bit 63 set, 26b0964; user-keyed
+  cache entry answering a userhash=true request, D23); the model describes the code as it is now.
+  One finding is OPEN and modelled as the code behaves: the cache is shared by all backend
+  scopes (`Cfg.scopes`, `serve`), so an entry vouched for by one backend / user file answers
+  requests whose conditions select another one (see c16_cache_upgrades_across_backend_scopes).
 -/
 import LtVerif.Model.Burl
 import LtVerif.Extracted.AuthTables
@@ -1029,5 +1026,15 @@ def DigestValid (P : Prims) (cfg : Cfg) (rule : Rule) (epoch : Int) (req : Req) 
     backendLookup P cfg rule.realm (userhashFlag dp) dlen (lookupKey (userhashFlag dp) name) = some (u, hA1) ∧
     responseMatches P req dp dalgo hA1 = true ∧
     matchRules rule.req u = true
+
+/-- the syntactic side conditions mod_auth_digest_validate_params() imposes besides what
+    `DigestValid` says: the required parameters are present (nc and cnonce with qop; exactly one
+    of username / username*), qop is not auth-int, a -sess algorithm comes with a cnonce, and
+    the response has the length of the algorithm's hex digest -/
+def DigestWellFormed (dp : Params) : Prop :=
+  requiredPresent dp = true ∧ qopAuthInt dp = false ∧
+  ∀ dalgo dlen, algorithmParse (dp.algorithm.getD []) = some (dalgo, dlen) →
+    (dalgo &&& Extracted.authDigestSess ≠ 0 → dp.cnonce.isSome = true) ∧
+    (dp.response.getD []).length = dlen * 2
 
 end LtVerif.Auth
